@@ -47,11 +47,12 @@ def judge_grid(case):
                            position_grid_cartesian=case["cartesian"])
             p = {k: os.path.join(d, k) for k in ("full_array.npy", "volumes.npy", "borders.npz", "distances.npz",
                                                  "adjacency.npz")}
-            w.save_full_grid(p["full_array.npy"])
-            w.save_volumes(p["volumes.npy"])
-            w.save_borders_array(p["borders.npz"])
-            w.save_distances_array(p["distances.npz"])
-            w.save_adjacency_array(p["adjacency.npz"])
+            saves = [lambda: w.save_full_grid(p["full_array.npy"]), lambda: w.save_volumes(p["volumes.npy"]),
+                     lambda: w.save_borders_array(p["borders.npz"]), lambda: w.save_distances_array(p["distances.npz"]),
+                     lambda: w.save_adjacency_array(p["adjacency.npz"])]
+            k = case["n"] % 5
+            for save in saves[k:] + saves[:k]:     # the save order varies from grid to grid
+                save()
             r = GridReader()
             got = {"array": r.load_full_grid(p["full_array.npy"]), "volumes": r.load_volumes(p["volumes.npy"]),
                    "borders": r.load_borders_array(p["borders.npz"]), "distances": r.load_distances_array(p["distances.npz"]),
